@@ -23,7 +23,7 @@ D=$(mktemp -d /tmp/seedt3.XXXXXX)
 (cd $D && patch -p1 -s < $S/patch.diff) || { echo "cannot apply to scratch"; rm -rf $D; exit 3; }
 cd /verif
 for Q in $P $EXTRA; do
-  VP_REPO=$D VP_GEN=$D/.gen VP_EVIDENCE=$D/.ev ./check $Q > $D/.out 2>&1; E=$?
+  VP_STANDIN_TARGET=/tmp/wt/sdt_${SLOT:-9} VP_REPO=$D VP_GEN=$D/.gen VP_EVIDENCE=$D/.ev ./check $Q > $D/.out 2>&1; E=$?
   echo "check $Q exit=$E: $(grep -c VIOLATION $D/.out) violations; $(grep -m2 -E 'obligation|UNDECIDED' $D/.out | cut -c1-220 | tr '\n' '|')"
   cp $D/.out $S/.check_$Q.txt
 done
